@@ -569,6 +569,7 @@ type c18Stats struct {
 // c18Run returns the violated oracle (if any), what the history exercised, and
 // a harness error (set-up trouble, not a property violation).
 func c18Run(c ttyCase) (fail *vlib.Failure, st c18Stats, herr error) {
+	defer vlib.Guard("C18", c, nil)()
 	var devs []c18Dev
 	defer func() {
 		for _, d := range devs {
